@@ -147,7 +147,7 @@ def economy(draw, zones=(1, 3), horizon=(3, 5), want_cross=None, gold=True, fede
                 gold_left -= 1
         spec['zones'].append(zone)
     # initial stocks: household wealth = - government wealth, per zone
-    if ics and draw(gen.chance(1, 3)):
+    if ics and draw(gen.chance(1, 2)):
         for zone in spec['zones']:
             tot = 0
             for c in zone['countries']:
